@@ -235,18 +235,22 @@ def onRecv (cfg : Cfg) (self : ChainId) (c : Chain) (p : Packet) : Cb :=
         if t.receiver ≠ acAgent ∨ t.amount < fee then .errorResult 3 c1
         else
           -- the agent works in units of the token it received: amount·k in total, fee·k of it as the relay fee;
-          -- if that token is itself bound towards `dst` (it goes home) the endpoint wants the amount in origin units
+          -- if that token is itself bound towards `dst` (it goes home) the agent hands the endpoint the packet's own
+          -- units (amount - fee), which the endpoint then multiplies by the scale of THAT binding
+          let aout : Nat := match cfg.ori tok dst with
+            | some _ => t.amount - fee
+            | none => (t.amount - fee) * k
           let kout : Nat := match cfg.ori tok dst with
             | some _ => 10 ^ cfg.scale tok dst
             | none => 1
-          let a : SendArgs := { dst := dst, token := tok, amount := (t.amount - fee) * k / kout, receiver := recv, call := .none,
+          let a : SendArgs := { dst := dst, token := tok, amount := aout, receiver := recv, call := .none,
                                 feeToken := tok, feeAmount := fee * k, callback := true }
           -- the agent approves the endpoint for everything it received
           let e := { e with allow := upd2 e.allow tok acAgent (t.amount * k) }
           match sendEvm cfg self (c1.nextSeq dst) e acAgent a with
           | none => .errorResult 3 c1               -- inner call reverted; its own state is gone, the transfer part stays
           | some (e2, p2) =>
-            let e3 := { e2 with agentData := upd2 e2.agentData dst p2.seq (some (tok, (t.amount - fee) * k / kout * kout, refund)) }
+            let e3 := { e2 with agentData := upd2 e2.agentData dst p2.seq (some (tok, aout * kout, refund)) }
             match sendKeeper cfg { c1 with evm := e3 } p2 with
             | none => .hookFail { c1 with evm := e3 }
             | some c2 => .ok c2
@@ -308,10 +312,10 @@ def agentCallback (e : Evm) (p : Packet) : Option Evm :=
     | some e => some (credit e tok to amt)
 
 /-- `msg_server.Acknowledgement` after the proof of the acknowledgement has been verified
-(one transaction: any failure leaves the chain unchanged). `OnAcknowledgePacket` runs on a cache context; its
-failure is tolerated exactly for an error acknowledgement of a packet WITHOUT transfer data (nothing to refund —
-the endpoint contract reverts on decoding the empty transfer data): the packet is then settled without it.
-`refunded` counts settled error acknowledgements (with the refund of the transfer, if there is one). -/
+(one transaction: any failure leaves the chain unchanged). In particular an error acknowledgement of a packet
+WITHOUT transfer data makes `OnAcknowledgePacket` revert (`refund … none => none`: the endpoint contract decodes the
+empty transfer data), so that `MsgAcknowledgement` fails every time: the packet stays committed (pending) and its
+relay fee stays in escrow — an observation outside C03 (docs/C03-observation-call-only-ack.md), modelled as it is. -/
 def ackHandler (cfg : Cfg) (self : ChainId) (c : Chain) (p : Packet) (code : Nat) : Option Chain :=
   if p.src ≠ self then none
   else if p ∉ c.commits then none                                  -- commitment must match
@@ -324,12 +328,7 @@ def ackHandler (cfg : Cfg) (self : ChainId) (c : Chain) (p : Packet) (code : Nat
     | some e1 =>
       let e1 := credit e1 (e.fee p.dst p.seq).1 acRelayer (e.fee p.dst p.seq).2
       let e1 := { e1 with feePaid := upd2 e1.feePaid p.dst p.seq (e1.feePaid p.dst p.seq + 1) }
-      if code ≠ 0 ∧ p.transfer = none then
-        -- OnAcknowledgePacket reverts on cctx; tolerated: settled, nothing refunded, callback not run
-        some { c with evm := { e1 with refunded := upd2 e1.refunded p.dst p.seq (e1.refunded p.dst p.seq + 1) },
-                      commits := c.commits.erase p }
-      else
-      let r : Option Evm := if code = 0 then some e1 else refund cfg e1 p                         -- OnAcknowledgePacket (cctx)
+      let r : Option Evm := if code = 0 then some e1 else refund cfg e1 p                         -- OnAcknowledgePacket
       match r with
       | none => none
       | some e2 =>
